@@ -24,11 +24,15 @@ pub struct FCase {
     pub panic_drop: bool,
     /// a write hit by a fault accepts 0 bytes instead of returning an error
     pub zero_writes: bool,
+    /// index into dev::ALL_KINDS of the error kind the faults answer with (0 = Other)
+    pub kind: u8,
+    /// a seek hit by a fault moves the position before it reports the error
+    pub seek_moves: bool,
 }
 
 impl FCase {
     pub fn to_json(&self) -> Value {
-        json!({"fault_run": {"ty": self.ty.name(), "other": self.other.map(|t| t.name()), "with_shx": self.with_shx, "ops": ops_name(&self.ops), "panic_drop": self.panic_drop, "zero_writes": self.zero_writes,
+        json!({"fault_run": {"ty": self.ty.name(), "other": self.other.map(|t| t.name()), "with_shx": self.with_shx, "ops": ops_name(&self.ops), "panic_drop": self.panic_drop, "zero_writes": self.zero_writes, "kind": format!("{:?}", crate::dev::ALL_KINDS[self.kind as usize]), "seek_moves": self.seek_moves,
             "faults": self.faults.iter().map(|(d, k)| json!([(["shp", "shx"][*d as usize]), k])).collect::<Vec<_>>()}})
     }
     pub fn from_json(v: &Value) -> Option<FCase> {
@@ -40,6 +44,8 @@ impl FCase {
             ops: ops_from_name(f.get("ops")?.as_str()?)?,
             panic_drop: f.get("panic_drop").and_then(|x| x.as_bool()).unwrap_or(false),
             zero_writes: f.get("zero_writes").and_then(|x| x.as_bool()).unwrap_or(false),
+            kind: f.get("kind").and_then(|x| x.as_str()).and_then(|n| crate::dev::ALL_KINDS.iter().position(|k| format!("{:?}", k) == n)).unwrap_or(0) as u8,
+            seek_moves: f.get("seek_moves").and_then(|x| x.as_bool()).unwrap_or(false),
             faults: f.get("faults")?.as_array()?.iter().map(|x| Some((if x.get(0)?.as_str()? == "shp" { 0u8 } else { 1u8 }, x.get(1)?.as_u64()?))).collect::<Option<Vec<_>>>()?,
         })
     }
@@ -82,9 +88,10 @@ impl FRun {
 
 pub fn run(pal: &Palette, case: &FCase) -> FRun {
     let env = WEnv::new(case.with_shx);
-    env.shp.set_zero_write_on_fault(case.zero_writes);
-    if let Some(x) = &env.shx {
-        x.set_zero_write_on_fault(case.zero_writes);
+    for d in std::iter::once(&env.shp).chain(env.shx.iter()) {
+        d.set_zero_write_on_fault(case.zero_writes);
+        d.set_fault_kind(crate::dev::ALL_KINDS[case.kind as usize]);
+        d.set_seek_moves_on_fault(case.seek_moves);
     }
     for (d, k) in &case.faults {
         if *d == 0 {
@@ -128,7 +135,7 @@ pub fn declared(b: &[u8]) -> &[u8] {
 /// little beyond the fault-free log, because a failed call changes what follows.  Runs in which not every
 /// planned fault fired are single-fault (or fault-free) runs and are not reported.
 pub fn for_each(ty: Ty, other: Option<Ty>, with_shx: bool, ops: &[WOp], pairs: bool, mut f: impl FnMut(&Palette, &FCase, &FRun)) {
-    let mut case = FCase { ty, other, with_shx, ops: ops.to_vec(), faults: vec![], panic_drop: false, zero_writes: false };
+    let mut case = FCase { ty, other, with_shx, ops: ops.to_vec(), faults: vec![], panic_drop: false, zero_writes: false, kind: 0, seek_moves: false };
     let pal = case.palette();
     let base = run(&pal, &case);
     // no fault, but the writer is dropped while the caller's panic unwinds
@@ -177,6 +184,26 @@ pub fn for_each(ty: Ty, other: Option<Ty>, with_shx: bool, ops: &[WOp], pairs: b
                 case.zero_writes = true;
                 f(&pal, &case, &r0);
                 case.zero_writes = false;
+            }
+            // ... with a seek that moves before it fails (the same run where the operation is no seek)
+            case.seek_moves = true;
+            let r1 = run(&pal, &case);
+            case.seek_moves = false;
+            if r1.all_fired(&case) && (r1.shp != r.shp || r1.shx != r.shx || r1.results != r.results) {
+                case.seek_moves = true;
+                f(&pal, &case, &r1);
+                case.seek_moves = false;
+            }
+            // ... and, on short histories, with every other error kind
+            if ops.len() <= 2 {
+                for k in 1..crate::dev::ALL_KINDS.len() as u8 {
+                    case.kind = k;
+                    let rk = run(&pal, &case);
+                    if rk.all_fired(&case) {
+                        f(&pal, &case, &rk);
+                    }
+                }
+                case.kind = 0;
             }
         }
     }
